@@ -7,9 +7,11 @@
 // no executor id) unlock a task that is still owned.
 //
 // tdorder: core/environment/manager.go TeardownEnvironment - the source order of its steps
-//   1 leave_<state> hooks (handleAllHooks)      2 first release message sent
-//   3 DESTROY / after_DESTROY hook loop          4 cancelCallsPendingAwait
-//   5 second release message sent                6 setState("DONE")      7 delete from the map
+//
+//	1 leave_<state> hooks (handleAllHooks)      2 first release message sent
+//	3 DESTROY / after_DESTROY hook loop          4 cancelCallsPendingAwait
+//	5 second release message sent                6 setState("DONE")      7 delete from the map
+//
 // Calls can still be started at 1; pending calls must be cancelled after that.
 package main
 
@@ -38,8 +40,42 @@ func ownSel(e ast.Expr) (x string, sel string, ok bool) {
 }
 
 // cond is `status.GetAgentID() != nil` / `status.GetExecutorID() != nil` (possibly one side of &&)
-func guardsId(cond ast.Expr) map[string]bool {
+func guardsId(init ast.Stmt, cond ast.Expr) map[string]bool {
 	out := map[string]bool{}
+	getter := func(e ast.Expr) string {
+		if c, ok := e.(*ast.CallExpr); ok {
+			if _, sel, ok := ownSel(c.Fun); ok {
+				switch sel {
+				case "GetAgentID":
+					return "agentId"
+				case "GetExecutorID":
+					return "executorId"
+				}
+			}
+		}
+		return ""
+	}
+	// `if x := status.GetAgentID(); x != nil`
+	bound := map[string]string{}
+	if as, ok := init.(*ast.AssignStmt); ok && len(as.Lhs) == len(as.Rhs) {
+		for i, l := range as.Lhs {
+			if id, ok := l.(*ast.Ident); ok {
+				if f := getter(as.Rhs[i]); f != "" {
+					bound[id.Name] = f
+				}
+			}
+		}
+	}
+	ast.Inspect(cond, func(n ast.Node) bool {
+		if b, ok := n.(*ast.BinaryExpr); ok && b.Op == token.NEQ {
+			if id, ok := b.Y.(*ast.Ident); ok && id.Name == "nil" {
+				if x, ok := b.X.(*ast.Ident); ok && bound[x.Name] != "" {
+					out[bound[x.Name]] = true
+				}
+			}
+		}
+		return true
+	})
 	ast.Inspect(cond, func(n ast.Node) bool {
 		b, ok := n.(*ast.BinaryExpr)
 		if !ok || b.Op != token.NEQ {
@@ -119,7 +155,7 @@ func utsWrites() string {
 				for k, b := range guards {
 					g[k] = b
 				}
-				for k := range guardsId(v.Cond) {
+				for k := range guardsId(v.Init, v.Cond) {
 					g[k] = true
 				}
 				walk(v.Body.List, g)
